@@ -120,9 +120,16 @@ func (c *ClientConn) closeWithErrorWithoutLock(err error) {
 }
 
 //go:norace
-func (c *ClientConn) onResponse(res *http.Response, err error) {
+func (c *ClientConn) onResponse(from net.Conn, res *http.Response, err error) {
 	c.mux.Lock()
 	defer c.mux.Unlock()
+
+	// A response that was still on its way on a connection which has been
+	// given up (write error, close) and replaced since does not belong to
+	// any of the requests that are pending now.
+	if from != c.conn {
+		return
+	}
 
 	if !c.closed && len(c.handlers) > 0 {
 		head := c.handlers[0]
@@ -290,7 +297,9 @@ func (c *ClientConn) Do(req *http.Request, handler func(res *http.Response, conn
 			engine.mux.Unlock()
 
 			c.conn = nbc
-			processor := NewClientProcessor(c, c.onResponse)
+			processor := NewClientProcessor(c, func(res *http.Response, err error) {
+				c.onResponse(nbc, res, err)
+			})
 			parser := NewParser(nbc, engine, processor, true, nbc.Execute)
 			parser.OnClose(func(p *Parser, err error) {
 				c.CloseWithError(err)
@@ -343,7 +352,9 @@ func (c *ClientConn) Do(req *http.Request, handler func(res *http.Response, conn
 
 			nbhttpConn := &Conn{Conn: tlsConn}
 			c.conn = nbhttpConn
-			processor := NewClientProcessor(c, c.onResponse)
+			processor := NewClientProcessor(c, func(res *http.Response, err error) {
+				c.onResponse(nbhttpConn, res, err)
+			})
 			parser := NewParser(nbhttpConn, engine, processor, true, nbc.Execute)
 			parser.Conn = nbhttpConn
 			parser.Engine = engine
